@@ -77,6 +77,9 @@ class Env:
 def make_form(form, ds=None):
     k = form['k']
     if k == 'slice':
+        if form.get('as') == 'np':
+            a, b, c = (None if v is None else np.int64(v) for v in (form['a'], form['b'], form['c']))
+            return slice(a, b, c)
         return slice(form['a'], form['b'], form['c'])
     if k == 'ilist':
         idx, how = list(form['idx']), form.get('as', 'list')
